@@ -41,8 +41,9 @@ def step (st : State) (toks : List String) : Option (State × String) :=
     let rs ← rangeList? rs
     if !okRanges rs then none else
     match opInsert st rs with
-    | .ok st' => pure (st', "ok " ++ showState st')
-    | .error e => pure (st, showErr e ++ " " ++ showState st)
+    | .skipped => pure (st, "skip " ++ showState st)
+    | .done st' => pure (st', "ok " ++ showState st')
+    | .failed e => pure (st, showErr e ++ " " ++ showState st)
   | ["partial", v, seqs, last] => do
     let v ← v.toNat?; let seqs ← range? seqs; let last ← last.toNat?
     if v = 0 then none else
